@@ -1222,3 +1222,49 @@ Theorem set_global_later_attempts_fail fx sm conf s t c g :
   global s = Some g -> handle s c = true ->
   step fx sm conf s (SetGlobal t c) = (s, OSetGlobal false).
 Proof. intros Hg Hh. simpl. unfold do_set_global. rewrite Hh, Hg. reflexivity. Qed.
+
+(** * `Dispatch::from_static` collectors.  A static collector's registrar (`Kind::Global`) always upgrades: it is a
+    collector that never loses its last strong reference.  In the model that is a collector whose handle is never
+    dropped (the correspondence creates them with `Dispatch::from_static` on zero-sized statics and never drops them):
+    in every history that does not drop c's handle, c stays live — listed, asked at every first hit and rebuild. *)
+Lemma get_default_handle fx s t s' d : get_default fx s t = (s', d) -> handle s' = handle s.
+Proof. intro H. apply get_default_post in H. destruct H as [_ [->|[-> _]]]; reflexivity. Qed.
+Lemma guard_handle fx sm conf s t cs s1 con ok : guard fx sm conf s t cs = (s1, con, ok) -> handle s1 = handle s.
+Proof.
+  intro H. apply guard_shape in H. destruct H as [[_ (_ & G & _)]|[s0 [d ((_ & G & _) & Hg & _)]]]; [exact G|].
+  rewrite (get_default_handle _ _ _ _ _ Hg). exact G.
+Qed.
+Lemma step_handle fx sm conf s o c :
+  (forall c', o = DropHandle c' -> c' <> c) -> handle s c = true -> handle (fst (step fx sm conf s o)) c = true.
+Proof.
+  intros Hd Hc. destruct o as [|c0|t d|t k|t c0|t cs|t cs|t|t| |c0]; cbn [step fst].
+  - match goal with |- handle (rebuild conf ?s1) c = true => pose proof (rebuild_fields conf s1) as (_ & F2 & _) end.
+    rewrite F2. simpl. unfold upd. destruct (c =? next s); [reflexivity | exact Hc].
+  - destruct (handle s c0); [|exact Hc]. simpl. unfold upd. destruct (c =? c0) eqn:E; [|exact Hc].
+    apply N.eqb_eq in E. subst c0. exfalso. apply (Hd c eq_refl). reflexivity.
+  - unfold do_open. destruct (valid_disp s d); exact Hc.
+  - unfold do_close. destruct (remove_nth k (guards (tls s t))) as [[p gs]|]; exact Hc.
+  - unfold do_set_global. destruct (handle s c0); [|exact Hc]. destruct (global s); exact Hc.
+  - unfold do_emit. destruct (guard fx sm conf s t cs) as [[s1 con] ok] eqn:Eg.
+    pose proof (guard_handle _ _ _ _ _ _ _ _ _ Eg) as G1.
+    destruct ok; [|simpl; rewrite G1; exact Hc]. destruct (get_default fx s1 t) as [s2 d] eqn:Ed. simpl.
+    rewrite (get_default_handle _ _ _ _ _ Ed), G1. exact Hc.
+  - unfold do_probe. destruct (guard fx sm conf s t cs) as [[s1 con] ok] eqn:Eg.
+    pose proof (guard_handle _ _ _ _ _ _ _ _ _ Eg) as G1.
+    destruct ok; [|simpl; rewrite G1; exact Hc]. destruct (get_default fx s1 t) as [s2 d] eqn:Ed. simpl.
+    rewrite (get_default_handle _ _ _ _ _ Ed), G1. exact Hc.
+  - destruct (get_default fx s t) as [s2 d] eqn:Ed. simpl. rewrite (get_default_handle _ _ _ _ _ Ed). exact Hc.
+  - destruct (slow fx s t) as [s2 d] eqn:Ed. simpl. apply slow_post in Ed. destruct Ed as [_ [->|[-> _]]]; exact Hc.
+  - pose proof (rebuild_fields conf s) as (_ & F2 & _). rewrite F2. exact Hc.
+  - destruct (c0 <? next s); exact Hc.
+Qed.
+Theorem static_collector_stays_live fx sm conf h : forall s c,
+  (forall c', In (DropHandle c') h -> c' <> c) -> handle s c = true ->
+  handle (final fx sm conf s h) c = true /\ live (final fx sm conf s h) c = true.
+Proof.
+  induction h as [|o h IH]; intros s c Hd Hc; simpl.
+  - split; [exact Hc|]. unfold live. rewrite Hc. reflexivity.
+  - apply IH.
+    + intros c' Hin. apply Hd. right. exact Hin.
+    + apply step_handle; [|exact Hc]. intros c' ->. apply Hd. left. reflexivity.
+Qed.
